@@ -1629,6 +1629,31 @@ _ical_fini(struct ical_parser_s p[static 1U])
 
 /* sending is like printing but into a file descriptor of choice */
 static void
+fdput_text(const char *prop, const char *val)
+{
+/* print PROP:VAL\n, escaping in VAL what the reader would unescape */
+	fdwrite(prop, strlen(prop));
+	fdputc(':');
+	for (const char *vp = val; *vp; vp++) {
+		switch (*vp) {
+		case '\\':
+			fdputc('\\');
+			fdputc('\\');
+			break;
+		case '\n':
+			fdputc('\\');
+			fdputc('n');
+			break;
+		default:
+			fdputc(*vp);
+			break;
+		}
+	}
+	fdputc('\n');
+	return;
+}
+
+static void
 send_task(int whither, echs_task_t t)
 {
 	static unsigned int auto_uid;
@@ -1640,7 +1665,7 @@ send_task(int whither, echs_task_t t)
 	fdbang(whither);
 
 	if (t->oid) {
-		fdprintf("UID:%s\n", obint_name(t->oid));
+		fdput_text("UID", obint_name(t->oid));
 	} else {
 		/* it's mandatory, so generate one */
 		fdprintf("UID:echse_merged_vevent_%u\n", auto_uid);
@@ -1679,34 +1704,34 @@ send_task(int whither, echs_task_t t)
 	}
 	}
 	if (t->cmd) {
-		fdprintf("SUMMARY:%s\n", t->cmd);
+		fdput_text("SUMMARY", t->cmd);
 	}
 	if (t->desc) {
-		fdprintf("DESCRIPTION:%s\n", t->desc);
+		fdput_text("DESCRIPTION", t->desc);
 	}
 	if (t->org) {
-		fdprintf("ORGANIZER:%s\n", t->org);
+		fdput_text("ORGANIZER", t->org);
 	}
 	if (t->att) {
 		for (const char *const *ap = t->att->l; *ap; ap++) {
-			fdprintf("ATTENDEE:%s\n", *ap);
+			fdput_text("ATTENDEE", *ap);
 		}
 	}
 	if (t->in) {
-		fdprintf("X-ECHS-IFILE:%s\n", t->in);
+		fdput_text("X-ECHS-IFILE", t->in);
 	}
 	if (t->out) {
-		fdprintf("X-ECHS-OFILE:%s\n", t->out);
+		fdput_text("X-ECHS-OFILE", t->out);
 	}
 	if (t->err) {
-		fdprintf("X-ECHS-EFILE:%s\n", t->err);
+		fdput_text("X-ECHS-EFILE", t->err);
 	}
 	with (nummapstr_t u = t->run_as.u) {
 		const char *tmps;
 		uintptr_t tmpn;
 
 		if ((tmps = nummapstr_str(u))) {
-			fdprintf("X-ECHS-SETUID:%s\n", tmps);
+			fdput_text("X-ECHS-SETUID", tmps);
 		} else if ((tmpn = nummapstr_num(u)) != NUMMAPSTR_NAN) {
 			fdprintf("X-ECHS-SETUID:%u\n", (unsigned int)tmpn);
 		}
@@ -1716,16 +1741,16 @@ send_task(int whither, echs_task_t t)
 		uintptr_t tmpn;
 
 		if ((tmps = nummapstr_str(g))) {
-			fdprintf("X-ECHS-SETGID:%s\n", tmps);
+			fdput_text("X-ECHS-SETGID", tmps);
 		} else if ((tmpn = nummapstr_num(g)) != NUMMAPSTR_NAN) {
 			fdprintf("X-ECHS-SETGID:%u\n", (unsigned int)tmpn);
 		}
 	}
 	if (t->run_as.sh) {
-		fdprintf("X-ECHS-SHELL:%s\n", t->run_as.sh);
+		fdput_text("X-ECHS-SHELL", t->run_as.sh);
 	}
 	if (t->run_as.wd) {
-		fdprintf("LOCATION:%s\n", t->run_as.wd);
+		fdput_text("LOCATION", t->run_as.wd);
 	}
 	if (t->umsk <= 0777) {
 		fdprintf("X-ECHS-UMASK:0%o\n", t->umsk);
